@@ -201,11 +201,81 @@ func textValues(tier string) []*Opnd {
 	return out
 }
 
+// retentionCase: the bytes returned for x must still denote x after the same producer
+// (and the other byte-producing calls) have been used on other values.
+func retentionCase(c *Ctx, xo *Opnd, others []*Opnd) {
+	type bp struct {
+		name string
+		f    func(x *Dec) ([]byte, error)
+	}
+	bps := []bp{
+		{"MarshalText", func(x *Dec) ([]byte, error) { return x.MarshalText() }},
+		{"Append(nil,g,-1)", func(x *Dec) ([]byte, error) { return x.Append(nil, 'g', -1), nil }},
+		{"Append(nil,e,-1)", func(x *Dec) ([]byte, error) { return x.Append(nil, 'e', -1), nil }},
+		{"json.Marshal", func(x *Dec) ([]byte, error) { return json.Marshal(x) }},
+	}
+	x := xo.Build()
+	for _, p := range bps {
+		if c.Skip() {
+			continue
+		}
+		var b []byte
+		var err error
+		pv, _ := protect(func() { b, err = p.f(x) })
+		key := func() string { return fmt.Sprintf("retention %s x=%s@exp%d", p.name, xo, xo.Exp) }
+		if pv != nil || err != nil {
+			c.Fail(key(), fmt.Sprintf("producer failed: panic=%v err=%v", pv, err))
+			continue
+		}
+		keep := string(b)
+		// later calls on other values, through every byte-producing entry point
+		for _, oo := range others {
+			o := oo.Build()
+			for _, q := range bps {
+				protect(func() { q.f(o) })
+			}
+			_ = o.Text('e', -1)
+			_ = fmt.Sprintf("%v %.3e", o, o)
+		}
+		c.NonTrivial()
+		if string(b) != keep {
+			c.Fail(key(), fmt.Sprintf("the returned bytes changed after later calls on other values: %q became %q", keep, string(b)))
+			continue
+		}
+		s := string(b)
+		if p.name == "json.Marshal" {
+			z := fresh(xo.Prec, ToZero)
+			uerr := json.Unmarshal(b, z)
+			roundTripJudge(c, key()+" -> json.Unmarshal", s, xo, z, nil, uerr, xo.Prec)
+			continue
+		}
+		z := fresh(xo.Prec, ToZero)
+		uerr := z.UnmarshalText(b)
+		roundTripJudge(c, key()+" -> UnmarshalText", s, xo, z, nil, uerr, xo.Prec)
+	}
+}
+
 func textLayers(tier string) []Layer {
 	var vals []*Opnd
 	n := len(textValues(tier))
 	const chunk = 256
 	return []Layer{{
+		Name:   "T2-result-retention",
+		Units:  (n + 4*chunk - 1) / (4 * chunk),
+		Bounds: "every 4th value of T1 through MarshalText, Append(nil,·), json.Marshal; the returned bytes are kept while the same calls (plus Text, Sprintf) run on 3 other values (shorter, longer, special), then compared and parsed back: a result must not be invalidated by later calls",
+		Run: func(c *Ctx, u int) {
+			if vals == nil {
+				vals = textValues(tier)
+			}
+			for i := u * 4 * chunk; i < (u+1)*4*chunk && i < len(vals); i += 4 {
+				if c.Done() {
+					return
+				}
+				others := []*Opnd{vals[(i+1)%len(vals)], vals[(i+len(vals)/2)%len(vals)], vals[len(vals)-1-(i%8)]}
+				retentionCase(c, vals[i], others)
+			}
+		},
+	}, {
 		Name:   "T1-roundtrip",
 		Units:  (n + chunk - 1) / chunk,
 		Bounds: fmt.Sprintf("%d values (D(k) ∪ run-length strings ∪ W(3,S7) with low/interior zero words) × exponents (sub-word, multi-word, %%g thresholds, range ends) × ±, plus ±0, ±Inf (also in variables that held finite values before); producers Text e/E/f/g/G/p (-1), b, Append, MarshalText, json.Marshal; consumers Parse(10), Parse(0), SetString, UnmarshalText, json.Unmarshal at receiver precision {MinPrec, MinPrec+1, x.prec, 0}", n),
